@@ -179,14 +179,15 @@ Definition exec_all_fast (n : nat) (s : st) (cs : list cmd) : st :=
 End X.
 
 (* ------------------------------------------------------------------ decoding a case *)
-(* formatter behaviour = f mod 10 (f >= 10 marks a static-level statement for the C++ harness only) *)
+(* formatter behaviour = f mod 10; f / 10 = 1: static-level call site (C++ harness only), 2: named-argument format *)
 Definition fmt_of (f : N) : fmtres := match f mod 10 with 0 => FOk | 1 => FStdThrow | _ => FOtherThrow end.
 Definition mk_ev id lgi lvl sz f : ev :=
-  {| eid := id; ets := 0; ekind := KLog; elg := N.to_nat lgi; elvl := lvl; esz := sz; efmt := fmt_of f |}.
+  {| eid := id; ets := 0; ekind := KLog; elg := N.to_nat lgi; elvl := lvl; esz := sz; efmt := fmt_of f;
+     enamed := if 20 <=? f then 2 else 0 |}.
 Definition mk_flush id lgi sz : ev :=
-  {| eid := id; ets := 0; ekind := KFlush; elg := N.to_nat lgi; elvl := 8; esz := sz; efmt := FOk |}.
+  {| eid := id; ets := 0; ekind := KFlush; elg := N.to_nat lgi; elvl := 8; esz := sz; efmt := FOk; enamed := 0 |}.
 Definition mk_ctl (k : kind) id lgi sz : ev :=
-  {| eid := id; ets := 0; ekind := k; elg := N.to_nat lgi; elvl := 8; esz := sz; efmt := FOk |}.
+  {| eid := id; ets := 0; ekind := k; elg := N.to_nat lgi; elvl := 8; esz := sz; efmt := FOk; enamed := 0 |}.
 
 (* simple commands: 1 t id lg lvl sz fmt | 2 (stall) same | 3 t | 4 t id lg sz | 5 t | 6 l v | 7 k v | 8 d | 10
    | 11 t id lg cap flvl sz (init_backtrace) | 12 t id lg sz (flush_backtrace) | 13 k m (add filter) *)
